@@ -37,7 +37,7 @@ from glue.core import message as M
 
 ID = "C17"
 LEVEL = "exploration"
-BUDGET_S = {"quick": 35.0, "thorough": 140.0}
+BUDGET_S = {"quick": 35.0, "thorough": 480.0}
 RULE = ("cases are blocks of random histories (4-22 calls) over the Data mutation API: add (array / list / Component; "
         "numeric, categorical, datetime; new label, duplicate label, fresh or existing ComponentID; wrong shape), add "
         "derived (chains; foreign inputs), remove (main, derived with transitive dependants, absent, coordinate), "
@@ -72,7 +72,7 @@ ANCHORS = ["glue.core.data:Data.add_component", "glue.core.data:Data.remove_comp
            "glue.core.data:Data._check_can_add", "glue.core.component_id:ComponentID.label"]
 
 MODES = ["nohub", "barehub", "collection", "collection_linked"]
-N_BLOCKS = {"quick": 400, "thorough": 6000}
+N_BLOCKS = {"quick": 400, "thorough": 24000}
 HIST_PER_BLOCK = 6
 
 
@@ -955,7 +955,9 @@ def refresh_flags(m, o, sibling=False):
         ol = labels(o.components)
         o_plain = [c.label for c in o.main_components]
         for c in comps:
-            if c.label in o_plain and not is_in(c, d.main_components):
+            # a computed (derived / coordinate) attribute whose label is a stored column of the source, or a derived
+            # attribute whose label is any component of the source (e.g. renamed to a pixel label)
+            if (c.label in o_plain and not is_in(c, d.main_components)) or (is_in(c, d.derived_components) and c.label in ol):
                 flags.append("label_of_computed_attribute_matches_source_column")
                 break
         for c in o.coordinate_components:
